@@ -13,6 +13,9 @@ def sh(cmd, cwd, timeout=3000):
 
 def confirm(mdir, wt):
     meta = json.load(open(os.path.join(mdir, "meta.json")))
+    if "demo_cmd" not in meta and "demonstration" in meta:
+        dm = meta["demonstration"]
+        meta["demo_cmd"] = "cp %s %s && %s" % (dm["file"], dm["place_at"], dm["command"])
     demo_cmd = meta["demo_cmd"].split("#")[0].strip()
     m = re.match(r"cp demo\.(rs|sh) (\S+) && (.*)", demo_cmd)
     if not m:
@@ -44,7 +47,7 @@ def confirm(mdir, wt):
     return res
 
 def main():
-    wt = "/tmp/confirm/wt"
+    wt = os.environ.get("CONFIRM_WT", "/tmp/confirm/wt")
     if not os.path.isdir(wt):
         os.makedirs("/tmp/confirm", exist_ok=True)
         subprocess.run(["git", "-C", "/repo", "worktree", "add", "--detach", wt, "HEAD", "-q"], check=True)
